@@ -477,8 +477,14 @@ ExitScope(byException) ==
   /\ UNCHANGED <<reg, cfg, okeys, oper, locked, usaved, interactive, singles, consts, hooks, imports>>
 
 \* a configurable is called from Python
+\* a method is called on an instance: the class is constructed first (through its configurable, without caller
+\* arguments), then the method's own wrapper runs with the instance as first positional argument
+ClassOf(c) == ConfBySel(SubSeq(c.sel, 1, Len(c.sel) - 1))
+NoArgs == [pargs |-> <<>>, kw |-> {}]
+S0 == MkS(okeys, oper, singles, <<>>)
 CallBody(c, call) ==
-  /\ LET r == CallW(cfg, MkS(okeys, oper, singles, <<>>), c, CurScope, call) IN
+  /\ LET pre == IF IsMethod(c) THEN CallW(cfg, S0, ClassOf(c), CurScope, NoArgs).s ELSE S0
+         r   == CallW(cfg, pre, c, CurScope, call) IN
      /\ okeys' = r.s.okeys /\ oper' = r.s.oper /\ singles' = r.s.singles
      /\ out' = [op |-> "Call", sel |-> c.sel, pargs |-> call.pargs, ckw |-> call.kw, status |-> r.status,
                 delivered |-> r.delivered, va |-> r.va, kw |-> r.kw,
@@ -487,7 +493,9 @@ CallBody(c, call) ==
 Call(c, call) ==
   /\ "Call" \in Enabled
   /\ c \in reg /\ call \in CallSpaceOf[c]
-  /\ ~IsMethod(c)               \* methods are reached through instances of their class; only their bindings are modelled
+  \* a method needs an instance: its class is registered and can be constructed from the configuration alone
+  /\ IsMethod(c) => /\ \E k \in reg : k.sel = SubSeq(c.sel, 1, Len(c.sel) - 1)
+                     /\ CallW(cfg, S0, ClassOf(c), CurScope, NoArgs).status = "ok"
   /\ CallBody(c, call)
 
 \* clear_config (1004-1029)
